@@ -771,3 +771,14 @@ M2("m160", "C12", "R12.9", [
      "                checkpoint_dir,\n                options=options,\n            )\n        return cls._checkpoint_managers[checkpoint_dir]\n", None),
 ], "checkpoint managers cached per directory in a class-level dict: max_checkpoints / async of the first solver stick")
 
+
+# =============================================================================== manager policy options (R12.10)
+M("m161", "C12", "R12.10", CKPT, "            create=True,\n", "            create=True,\n            save_interval_steps=2,\n",
+  "Orbax save_interval_steps: manager.save silently skips odd steps, whatever checkpoint_frequency says")
+M("m162", "C12", "R12.10", CKPT, "            max_to_keep=max_checkpoints,\n", "            max_to_keep=max_checkpoints,\n            keep_period=10,\n",
+  "Orbax keep_period: every tenth step is kept forever, beyond max_checkpoints")
+M("m163", "C12", "R12.10", CKPT, "        manager = cls._create_checkpoint_manager(checkpoint_dir, 1, True)\n",
+  "        manager = cls._create_checkpoint_manager(checkpoint_dir, 1, True)\n        for old in manager.all_steps()[:-1]:\n            manager.delete(old)\n",
+  "restore() prunes the directory it reads from: retained steps removed by the package")
+B("b54", ["C12", "C10", "C09"], CKPT, "            create=True,\n", "            create=True,\n            enable_background_delete=False,\n",
+  "an Orbax option that changes neither which steps are written nor which are kept")
